@@ -110,6 +110,8 @@ seq_t dtw_distance(seq_t *s1, idx_t l1,
         if (settings->only_ub) {
             return max_dist;
         }
+        // Rounding (sqrt followed by pow) must not prune the Euclidean alignment itself
+        max_dist *= (1 + 1e-12);
     } else if (max_dist == 0) {
         max_dist = INFINITY;
     } else {
@@ -350,6 +352,8 @@ seq_t dtw_distance_ndim(seq_t *s1, idx_t l1,
         if (settings->only_ub) {
             return max_dist;
         }
+        // Rounding (sqrt followed by pow) must not prune the Euclidean alignment itself
+        max_dist *= (1 + 1e-12);
     } else if (max_dist == 0) {
         max_dist = INFINITY;
     } else {
@@ -592,6 +596,8 @@ seq_t dtw_distance_euclidean(seq_t *s1, idx_t l1,
         if (settings->only_ub) {
             return max_dist;
         }
+        // Rounding (sqrt followed by pow) must not prune the Euclidean alignment itself
+        max_dist *= (1 + 1e-12);
     } else if (max_dist == 0) {
         max_dist = INFINITY;
     }
@@ -823,6 +829,8 @@ seq_t dtw_distance_ndim_euclidean(seq_t *s1, idx_t l1,
         if (settings->only_ub) {
             return max_dist;
         }
+        // Rounding (sqrt followed by pow) must not prune the Euclidean alignment itself
+        max_dist *= (1 + 1e-12);
     } else if (max_dist == 0) {
         max_dist = INFINITY;
     }
@@ -1087,6 +1095,8 @@ seq_t dtw_warping_paths_ndim(seq_t *wps,
                 return sqrt(p.max_dist);
             }
         }
+        // Rounding (sqrt followed by pow) must not prune the Euclidean alignment itself
+        p.max_dist *= (1 + 1e-12);
     }
 
     idx_t ri, ci, min_ci, max_ci, wpsi, wpsi_start;
@@ -1465,6 +1475,8 @@ seq_t dtw_warping_paths_ndim_euclidean(seq_t *wps,
                 return sqrt(p.max_dist);
             }
         }
+        // Rounding (sqrt followed by pow) must not prune the Euclidean alignment itself
+        p.max_dist *= (1 + 1e-12);
     }
 
     idx_t ri, ci, min_ci, max_ci, wpsi, wpsi_start;
